@@ -14,6 +14,7 @@ import (
 	"github.com/taurusgroup/multi-party-sig/pkg/party"
 	"github.com/taurusgroup/multi-party-sig/pkg/protocol"
 	"github.com/taurusgroup/multi-party-sig/verif/fw"
+	"github.com/taurusgroup/multi-party-sig/verif/mut"
 	"github.com/taurusgroup/multi-party-sig/verif/scen"
 	"github.com/taurusgroup/multi-party-sig/verif/sim"
 )
@@ -499,8 +500,41 @@ func runC17Sequence(c *fw.Ctx) {
 		}
 		next++
 	}
+	// a peer's last-round message that passes verification but makes the round END IN AN
+	// IDENTIFIABLE-ABORT ROUND when it is finalized (toy protocol: wrong view digest); delivered in
+	// place of the next genuine message. false: that message carries no view digest.
+	deliverTampered := func() bool {
+		tm := tamperViewDigest(rec.inbound[next])
+		if tm == nil {
+			return false
+		}
+		trace = append(trace, fmt.Sprintf("Accept(m%d with a wrong view digest)", next))
+		if call("Accept", func() { h.Accept(tm) }) {
+			return true
+		}
+		c.Fault("message_that_fails_at_finalize", 1)
+		var v interface{}
+		var e error
+		if call("Result", func() { v, e = h.Result() }) {
+			return true
+		}
+		switch classify(v, e) {
+		case "error":
+			st.phase = 2
+		case "value":
+			st.phase = 1
+		}
+		garbageAt[next] = true
+		doomed = true
+		next++
+		return true
+	}
 	for k := 0; k < ops; k++ {
-		switch c.S.Draw(8, "op") {
+		switch c.S.Draw(9, "op") {
+		case 8:
+			if next >= nGenuine || !deliverTampered() {
+				continue
+			}
 		case 7:
 			// a peer's message that cannot be decoded (delivered in place of the next genuine one, possibly
 			// early): the session must end with an error, once
@@ -615,6 +649,13 @@ func runC17Sequence(c *fw.Ctx) {
 	for next < nGenuine {
 		if st.phase != 0 {
 			c.Fault("late_message_after_end", 1)
+		}
+		if st.phase == 0 && tamperViewDigest(rec.inbound[next]) != nil && c.S.Draw(3, "tamper-digest") == 2 {
+			deliverTampered()
+			if len(c.Res.Violations) > 0 || !check("after "+trace[len(trace)-1]) {
+				return
+			}
+			continue
 		}
 		if !deliver(next) {
 			return
@@ -901,4 +942,23 @@ func concurrentAttempt(c *fw.Ctx, rec *recorded, lists [][][]cop, all uint64) {
 		}
 		c.Violate(fmt.Sprintf("concurrent/channel-closed-%v-but-ended-%v/%s", atomic.LoadInt32(&closedSeen) == 1, ended, hk), "session ended=%v but outgoing channel closed=%v (%s)", ended, atomic.LoadInt32(&closedSeen) == 1, c.Res.Desc)
 	}
+}
+
+// tamperViewDigest returns a copy of a toy-protocol message whose view digest (field T) is altered, or
+// nil if the message carries none.
+func tamperViewDigest(m *protocol.Message) *protocol.Message {
+	t, err := mut.Decode(m.Data)
+	if err != nil {
+		return nil
+	}
+	v, ok := mut.Get(t, mut.Path{"T"})
+	b, isB := v.([]byte)
+	if !ok || !isB || len(b) != 32 {
+		return nil
+	}
+	nb := append([]byte{}, b...)
+	nb[0] ^= 1
+	mm := *m
+	mm.Data = mut.Encode(mut.Set(mut.Clone(t), mut.Path{"T"}, nb))
+	return &mm
 }
